@@ -116,7 +116,9 @@ def get_spectra(time_series, method=None):
 
         # If there is only 1 channel in the time-series:
         if len(time_series.shape) == 1 or time_series.shape[0] == 1:
-            temp, f = mlab.csd(time_series, time_series,
+            # mlab.csd wants 1-d input: hand over the only row of a (1, n) array
+            ts0 = time_series if len(time_series.shape) == 1 else time_series[0]
+            temp, f = mlab.csd(ts0, ts0,
                                NFFT, Fs, detrend, window, n_overlap,
                                scale_by_freq=True)
 
